@@ -93,6 +93,7 @@ void UseResultVoid() {
   Result<Err, void> a; Result<Err, void> b{Err::A}; Result<Err, void> c{b}; Result<Err, void> d{std::move(c)};
   a = b; a = std::move(d); (void)a.has_error(); (void)static_cast<bool>(a); (void)a.error(); a.clear();
   Status<void> s; Status<int> si{1}; (void)s.GetErrorMessage(); (void)si.GetErrorMessage();
+  Status<std::string> ss{std::string{"v"}}; Status<std::string> se{ErrorStatus::IOError}; Status<std::string> sd; (void)ss.GetErrorMessage(); sd = se; sd = ss; sd = std::move(se); (void)sd.has_value(); (void)sd.has_error(); (void)sd.error(); (void)static_cast<bool>(sd); sd.clear();
 }
 
 void UseVariant() {
@@ -221,6 +222,63 @@ struct Cmp { int v; bool operator==(const Cmp& o) const { return v == o.v; } boo
 
 // Copies from NON-const lvalues: overload resolution must select the copy constructor / copy assignment, not a converting or
 // forwarding template (rule CH reads the resolved callee of each of these constructions).
+// Exception specifications: an element whose move CONSTRUCTOR cannot throw but whose move ASSIGNMENT can; the conditional noexcept
+// clauses of Optional / Result are evaluated for it and rule NX follows their bodies into these operations.
+struct MoveAssignThrows {
+  MoveAssignThrows() {}
+  MoveAssignThrows(const MoveAssignThrows&) {}
+  MoveAssignThrows(MoveAssignThrows&&) noexcept {}
+  MoveAssignThrows& operator=(const MoveAssignThrows&) { return *this; }
+  MoveAssignThrows& operator=(MoveAssignThrows&&) noexcept(false) { return *this; }
+  ~MoveAssignThrows() {}
+};
+void UseExceptionSpecs() {
+  Optional<MoveAssignThrows> a{MoveAssignThrows{}}, b{MoveAssignThrows{}};
+  a = std::move(b);
+  Optional<MoveAssignThrows> c{std::move(a)};
+  c = MoveAssignThrows{};
+  (void)c.take();
+  Result<Err, MoveAssignThrows> r{MoveAssignThrows{}}, q;
+  q = std::move(r);
+  Variant<int, MoveAssignThrows> v{MoveAssignThrows{}}, w;
+  w = std::move(v);
+  Variant<int, MoveAssignThrows> x{std::move(w)};
+  (void)x;
+}
+
+// Mixed trivially / non-trivially destructible alternatives (the destruction walk must not depend on its neighbours), and
+// mutually convertible scalar alternatives (copy / move must keep the alternative the source holds).
+void UseVariantMixed() {
+  using V = Variant<int, Tracked, bool>;
+  V a; V b{1}; V c{Tracked{}}; V d{true}; V e{EmptyVariant{}}; V f{c}; V g{std::move(c)};
+  a = b; a = f; a = std::move(g); a = 2; a = Tracked{}; a = false; a = EmptyVariant{};
+  const Tracked ct; a = ct;
+  a.Become(0); a.Become(1); a.Become(2); a.Become(3); a.Become(-1);
+  (void)a.index(); (void)a.empty(); (void)a.get<int>(); (void)a.get<Tracked>(); (void)a.get<bool>();
+  a.Visit([](auto&&) {});
+  (void)d; (void)e;
+}
+void UseVariantConvertible() {
+  using V = Variant<int, bool, float>;
+  V a; V b{1}; V c{true}; V d{2.5f}; V e{EmptyVariant{}}; V f{d}; V g{std::move(d)};
+  a = b; a = f; a = std::move(g); a = 3; a = false; a = 1.5f; a = EmptyVariant{};
+  a.Become(0); a.Become(1); a.Become(2); a.Become(3); a.Become(-1);
+  (void)a.index(); (void)a.empty(); (void)a.get<int>(); (void)a.get<bool>(); (void)a.get<float>();
+  a.Visit([](auto&&) {});
+  (void)c; (void)e;
+}
+
+// A Variant whose alternative is itself a Variant: assigning a value of the inner type must store the inner Variant (rule AE reads
+// which overload each of these assignments, and the ones forwarded from the move assignment's visitor, resolve to).
+void UseNestedVariant() {
+  using Inner = Variant<int, std::string>;
+  using Outer = Variant<Inner, int>;
+  const Inner cin{6};
+  Outer a{Inner{5}}; Outer b{cin}; Outer d; d = Inner{5}; d = cin; d = 7; Outer f{7}; f = Outer{Inner{5}};
+  (void)a.index(); (void)b.index(); (void)d.get<Inner>(); (void)f.get<int>();
+  d.Visit([](auto&&) {});
+}
+
 void UseLvalueCopies() {
   Optional<bool> ob; Optional<bool> ob2{ob}; Optional<bool> ob3 = ob; (void)ob2; (void)ob3;
   Optional<int> oi; Optional<int> oi2{oi}; (void)oi2;
@@ -236,6 +294,10 @@ void UseLvalueCopies() {
 
 void All() {
   UseLvalueCopies();
+  UseExceptionSpecs();
+  UseVariantMixed();
+  UseVariantConvertible();
+  UseNestedVariant();
   UseOptional<std::string, const char*>(std::string{"a"}, "b");
   UseOptional<int, short>(1, short{2});
   UseOptional<Cmp, int>(Cmp{1}, 2);
